@@ -75,7 +75,7 @@ def run_mc(rep: Report, ctx, which: str):
                 ("plain_f2_t4", dict(total=4, faults=2, idem=False)),
                 ("idem_f3", dict(total=3, faults=3, idem=True)),
                 ("idem_lat_f2", dict(total=3, faults=2, idem=True, lat=True)),
-                ("acks0_f2", dict(total=3, faults=2, idem=False, acks0=True)),
+                ("acks0_f3", dict(total=2, faults=3, idem=False, acks0=True)),
                 ("live_idem", dict(total=3, faults=2, idem=True, live=True, ts="{1}")),
                 ("live_plain", dict(total=3, faults=1, idem=False, live=True, ts="{1}"))]
         workers, to = 5, 3000
